@@ -22,11 +22,11 @@ import (
 )
 
 func TestMain(m *testing.M) {
-	ev.C().Rule("rapid: start instants (on a boundary, +-1ns, arbitrary) x intervals {1s,10s,7s,1m,1.5s,250ms} x offsets in [0,interval) and beyond x advancement patterns (exact next-deadline steps, small steps, jumps over k intervals, a consumer that reads late). Layer 1: aligned ticker on a mock clock, arithmetic oracle on the tick values. Layer 2: real MetricFlusher with aligned flushing and a recording aggregator, clock stepped to the next deadline only while the flusher is parked. Layer 3: the same flusher under jumps of k intervals plus a fraction (landing between boundaries) and an aggregator flush that blocks while 1..3 further deadlines pass; exact tick model of the mock clock until the first slow flush, afterwards elapsed must be a positive multiple. Layer 4: the flusher on the real clock (10..25 ms intervals; real times carry monotonic readings), elapsed must be an exact positive multiple. Non-trivial = offset != 0 with a start within 1ns of a boundary, or a jump >= 2 intervals (layer 1), or a jump / slow consumer (layer 3), or offset != 0 (layer 4)")
+	ev.C().Rule("rapid: start instants (on a boundary, +-1ns, arbitrary) x intervals {1s,10s,7s,1m,1.5s,250ms,1h,2h} x the time zone the clock reports in (UTC, +05:30, +01:00, -03:30, +05:45, +03:25:45) x offsets in [0,interval) and beyond x advancement patterns (exact next-deadline steps, small steps, jumps over k intervals, a consumer that reads late). Layer 1: aligned ticker on a mock clock, arithmetic oracle on the tick values. Layer 2: real MetricFlusher with aligned flushing and a recording aggregator, clock stepped to the next deadline only while the flusher is parked. Layer 3: the same flusher under jumps of k intervals plus a fraction (landing between boundaries) and an aggregator flush that blocks while 1..3 further deadlines pass; exact tick model of the mock clock until the first slow flush, afterwards elapsed must be a positive multiple. Layer 4: the flusher on the real clock (10..25 ms intervals; real times carry monotonic readings), elapsed must be an exact positive multiple. Non-trivial = offset != 0 with a start within 1ns of a boundary, or a jump >= 2 intervals (layer 1), or a jump / slow consumer (layer 3), or offset != 0 (layer 4)")
 	vt.Main(m)
 }
 
-var intervals = []time.Duration{time.Second, 10 * time.Second, 7 * time.Second, time.Minute, 1500 * time.Millisecond, 250 * time.Millisecond}
+var intervals = []time.Duration{time.Second, 10 * time.Second, 7 * time.Second, time.Minute, 1500 * time.Millisecond, 250 * time.Millisecond, time.Hour, 2 * time.Hour}
 
 // zeroToUnix is the number of seconds from Go's zero time (0001-01-01) to the Unix epoch; time.Truncate
 // is documented to round "since the zero time".
@@ -40,8 +40,18 @@ func aligned(t time.Time, interval, offset time.Duration) bool {
 	return new(big.Int).Mod(ns, big.NewInt(int64(interval))).Sign() == 0
 }
 
+// zones the clock may report its times in: alignment is defined on absolute time, whatever the wall clock shows
+var zones = []*time.Location{time.UTC, time.UTC, time.FixedZone("IST", 5*3600+1800), time.FixedZone("CET", 3600),
+	time.FixedZone("NST", -(3*3600 + 1800)), time.FixedZone("NPT", 5*3600+2700), time.FixedZone("odd", 12345)}
+
 func startGen(interval, offset time.Duration) *rapid.Generator[time.Time] {
 	return rapid.Custom(func(t *rapid.T) time.Time {
+		return startUTC(t, interval, offset).In(rapid.SampledFrom(zones).Draw(t, "zone"))
+	})
+}
+
+func startUTC(t *rapid.T, interval, offset time.Duration) time.Time {
+	{
 		base := time.Unix(1_700_000_000+rapid.Int64Range(0, 100000).Draw(t, "base"), 0)
 		boundary := base.Add(-offset).Truncate(interval).Add(offset)
 		switch rapid.IntRange(0, 3).Draw(t, "startkind") {
@@ -53,7 +63,7 @@ func startGen(interval, offset time.Duration) *rapid.Generator[time.Time] {
 			return boundary.Add(-1)
 		}
 		return base.Add(time.Duration(rapid.Int64Range(0, int64(interval)).Draw(t, "into")))
-	})
+	}
 }
 
 func offsetGen(interval time.Duration) *rapid.Generator[time.Duration] {
